@@ -1,40 +1,48 @@
 open Gatemodel
 (* Line protocol of the gate model (coq/readpath/Gate.v, payload elements = small ints).
-     reset                     -> OK
+     reset 0|1                 -> OK      (1: EPOLLONESHOT)
      arrive b1 b2 ...          the peer's bytes reach the socket
      eof                       the peer shuts down its sending side
-     gate | spawn | mark       poller: gate step (successful CAS or the load that saw 2) / hand-over to IOExecute / store readEOF
+     mod                       one-shot: an EPOLL_CTL_MOD from the write side re-arms the descriptor
+     take                      epoll_wait reports the descriptor to the poller
+     mark | gate | spawn       poller: store readEOF / gate step (successful CAS or the load that saw 2) / hand-over to IOExecute
      read N                    task: one read(2) with a buffer of N bytes (TaskRead in the read pass, TaskDrain in readToEOF)
-     check | dec               task: load of readEOF / decrement of readEvents
+     check | dec | rearm       task: load of readEOF / decrement of readEvents / ResetPollerEvent at its exit
+     close                     task: Conn.closed := true at the end of the stream
      delivered                 -> the delivered elements
-   every action answers:  <enabled 0|1> r=<readEvents> t=<N|R|C|D|Z> sp=<spawning> e=<edge> f=<readEOF> c=<closed>
-                           nd=<#delivered> na=<#in the socket> nt=<tasks alive>                                          *)
+   every action answers:  <enabled 0|1> r=<readEvents> t=<N|R|C|D|Z|X> sp=<spawning> e=<edge> f=<readEOF> c=<closed>
+                           nd=<#delivered> na=<#in the socket> nt=<tasks alive> ar=<armed> re=<re-arm owed> h=<event held>  *)
 let s : int st ref = ref init
+let os = ref false
 let b2i b = if b then 1 else 0
 let phase s = match s.task with
-  | None -> "N" | Some TReading -> "R" | Some TAtCheck -> "C" | Some TAtDec -> "D" | Some TDraining -> "Z"
+  | None -> "N" | Some TReading -> "R" | Some TAtCheck -> "C" | Some TAtDec -> "D" | Some TDraining -> "Z" | Some TClosing -> "X"
 let apply a =
-  let en = enabled !s a in
-  s := step !s a;
+  let en = enabled !os !s a in
+  s := step !os !s a;
   let x = !s in
-  Printf.printf "%d r=%d t=%s sp=%d e=%d f=%d c=%d nd=%d na=%d nt=%d\n%!" (b2i en) x.r (phase x) (b2i x.spawning) (b2i x.edge)
-    (b2i x.eofflag) (b2i x.closed) (List.length x.delivered) (List.length x.avail) x.ntasks
+  Printf.printf "%d r=%d t=%s sp=%d e=%d f=%d c=%d nd=%d na=%d nt=%d ar=%d re=%d h=%d\n%!" (b2i en) x.r (phase x) (b2i x.spawning) (b2i x.edge)
+    (b2i x.eofflag) (b2i x.closed) (List.length x.delivered) (List.length x.avail) x.ntasks (b2i x.armed) x.rearm (b2i x.held)
 let () =
   try
     while true do
       let line = input_line stdin in
       match String.split_on_char ' ' (String.trim line) with
-      | ["reset"] -> s := init; Printf.printf "OK\n%!"
+      | ["reset"; o] -> os := (o = "1"); s := init; Printf.printf "OK\n%!"
       | "arrive" :: b :: rest -> apply (Arrive (int_of_string b, List.map int_of_string rest))
       | ["eof"] -> apply PeerEOF
+      | ["mod"] -> apply Mod
+      | ["take"] -> apply PollTake
+      | ["mark"] -> apply PollMarkEOF
       | ["gate"] -> apply PollGate
       | ["spawn"] -> apply PollSpawn
-      | ["mark"] -> apply PollMarkEOF
       | ["read"; n] ->
         let b = int_of_string n - 1 in
         (match !s.task with Some TDraining -> apply (TaskDrain b) | _ -> apply (TaskRead b))
       | ["check"] -> apply TaskCheck
       | ["dec"] -> apply TaskDec
+      | ["rearm"] -> apply TaskRearm
+      | ["close"] -> apply TaskClose
       | ["delivered"] -> Printf.printf "%s\n%!" (String.concat " " (List.map string_of_int !s.delivered))
       | _ -> failwith ("bad line " ^ line)
     done
